@@ -442,3 +442,165 @@ Proof.
   destruct v; cbn [fst snd]; unfold nupd; cbn [gn gr gnext gcat]; f_equal; rewrite nmap_nmap; apply nmap_ext;
     intros n; cbn [g_labels g_props]; f_equal; try apply pdel_idem; apply (set_then_remove k _ (g_props n)).
 Qed.
+
+
+(* ---------- relationship MERGE: rows that carry the same pattern are idempotent ---------- *)
+Definition kmatch (pre : graph) (ov : list (rkey * props)) (ps : list (N * oval)) (key : rkey) : bool :=
+  match rfind_pre key (gr pre) with Some (_, p) => ps_match p ps | None => false end ||
+  existsb (fun e => rkey_eqb (fst e) key && ps_match (snd e) ps) ov.
+Definition rsat (pre : graph) (ov : list (rkey * props)) (wk : rkey) (dir : N) (ps : list (N * oval)) : Prop :=
+  filter (kmatch pre ov ps) (merge_lookup_keys wk dir) <> [].
+
+Lemma rkey_eqb_refl k : rkey_eqb k k = true.
+Proof. destruct k as [[a b] c]. cbn. rewrite !N.eqb_refl. reflexivity. Qed.
+
+Lemma rmap_set_nil key : forall l, rmap key (fun p => set_all p []) l = l.
+Proof.
+  induction l as [|[k [m p]] t IH]; cbn [rmap]; [reflexivity|].
+  destruct (rkey_eqb k key); [reflexivity|rewrite IH; reflexivity].
+Qed.
+Lemma fold_rmap_set_nil ks : forall l, fold_left (fun rels key => rmap key (fun p => set_all p []) rels) ks l = l.
+Proof. induction ks as [|k t IH]; intros l; cbn [fold_left]; [reflexivity|]. rewrite rmap_set_nil. apply IH. Qed.
+
+Lemma merge_rel_row_sat pre g c ov wk dir ps :
+  rsat pre ov wk dir ps ->
+  merge_rel_row pre (g, c, ov) (wk, dir, ps, [], []) = (mkGraph (gn g) (gr g) (gnext g) (gcat g), c, ov).
+Proof.
+  unfold rsat. intros H. unfold merge_rel_row. fold (kmatch pre ov ps).
+  destruct (filter (kmatch pre ov ps) (merge_lookup_keys wk dir)) as [|k0 kt]; [contradiction|].
+  rewrite fold_rmap_set_nil. reflexivity.
+Qed.
+Lemma merge_rel_row_unsat pre g c ov wk dir ps :
+  ~ rsat pre ov wk dir ps ->
+  merge_rel_row pre (g, c, ov) (wk, dir, ps, [], []) =
+  (mkGraph (gn g) (rel_merge_create (merge_create_key wk dir) ps [] (gr g)) (gnext g) (gcat g), c + 1,
+   ov ++ [(merge_create_key wk dir, raw_set [] ps)]).
+Proof.
+  unfold rsat. intros H. unfold merge_rel_row. fold (kmatch pre ov ps).
+  destruct (filter (kmatch pre ov ps) (merge_lookup_keys wk dir)) as [|k0 kt]; [reflexivity|].
+  exfalso. apply H. discriminate.
+Qed.
+
+Lemma create_key_in_lookup wk dir : In (merge_create_key wk dir) (merge_lookup_keys wk dir).
+Proof.
+  unfold merge_create_key, merge_lookup_keys.
+  destruct (dir =? 0) eqn:D0; [assert (dir =? 1 = false) as -> by (apply N.eqb_eq in D0; subst; reflexivity); left; reflexivity|].
+  destruct (dir =? 1); left; reflexivity.
+Qed.
+
+Lemma raw_set_other k : forall ps p, ~ In k (keys_of ps) -> pget k (raw_set p ps) = pget k p.
+Proof.
+  unfold raw_set. induction ps as [|[k' v] t IH]; intros p H; cbn [fold_left]; [reflexivity|].
+  rewrite IH by (intros Hi; apply H; right; exact Hi). cbn [fst snd pget].
+  destruct (k' =? k) eqn:E; [apply N.eqb_eq in E; subst; exfalso; apply H; left; reflexivity|].
+  rewrite pget_pdel, E. reflexivity.
+Qed.
+Lemma raw_set_self : forall ps p k v, NoDup (keys_of ps) -> In (k, v) ps -> pget k (raw_set p ps) = Some v.
+Proof.
+  induction ps as [|[k' v'] t IH]; intros p k v ND Hin; [destruct Hin|].
+  cbn [keys_of map fst] in ND. inversion ND as [|? ? Hn Hd]; subst.
+  unfold raw_set. cbn [fold_left fst snd]. fold (raw_set ((k', v') :: pdel k' p) t).
+  destruct Hin as [E|Hin].
+  - inversion E; subst. rewrite raw_set_other by exact Hn. cbn [pget]. rewrite N.eqb_refl. reflexivity.
+  - apply IH; assumption.
+Qed.
+Lemma raw_set_matches ps p :
+  NoDup (keys_of ps) -> (forall k v, In (k, v) ps -> pv_eq v v = true) -> ps_match (raw_set p ps) ps = true.
+Proof.
+  intros ND R. unfold ps_match. apply forallb_forall. intros [k v] Hin. cbn [fst snd].
+  rewrite (raw_set_self ps p k v ND Hin). apply (R k v Hin).
+Qed.
+
+Lemma rfind_after_create key ps : forall l,
+  exists m p, rfind_pre key (rel_merge_create key ps [] l) = Some (m, raw_set p ps).
+Proof.
+  induction l as [|[k [m p]] t IH]; cbn [rel_merge_create].
+  - exists 1, []. cbn [rfind_pre]. rewrite rkey_eqb_refl. reflexivity.
+  - destruct (rkey_eqb k key) eqn:E; cbn [rfind_pre]; rewrite E; [exists (m + 1), p; reflexivity|exact IH].
+Qed.
+
+Lemma rsat_more pre ov ov' wk dir ps : rsat pre ov wk dir ps -> rsat pre (ov ++ ov') wk dir ps.
+Proof.
+  unfold rsat. intros H Hf. apply H. clear H.
+  induction (merge_lookup_keys wk dir) as [|k t IH]; [reflexivity|].
+  cbn [filter] in *. destruct (kmatch pre (ov ++ ov') ps k) eqn:E; [discriminate|].
+  assert (kmatch pre ov ps k = false) as ->.
+  { unfold kmatch in *. apply orb_false_elim in E. destruct E as [E1 E2]. rewrite E1. cbn [orb].
+    rewrite existsb_app in E2. apply orb_false_elim in E2. apply E2. }
+  apply IH. exact Hf.
+Qed.
+
+(* all rows carry the pattern (wk, dir, ps) without ON items *)
+Definition same_rows (wk : rkey) (dir : N) (ps : list (N * oval)) (n : nat) :=
+  repeat (wk, dir, ps, @nil (N * oval), @nil (N * oval)) n.
+
+Lemma fold_sat pre wk dir ps : forall n g c ov,
+  rsat pre ov wk dir ps ->
+  exists g', fold_left (merge_rel_row pre) (same_rows wk dir ps n) (g, c, ov) = (g', c, ov) /\
+             gn g' = gn g /\ gr g' = gr g /\ gnext g' = gnext g.
+Proof.
+  induction n as [|n IH]; intros g c ov H; cbn [same_rows repeat fold_left].
+  - exists g. auto.
+  - rewrite merge_rel_row_sat by exact H.
+    destruct (IH (mkGraph (gn g) (gr g) (gnext g) (gcat g)) c ov H) as (g' & E & A & B & C).
+    exists g'. split; [exact E|]. cbn in *. auto.
+Qed.
+
+Theorem merge_rel_same_rows_idempotent g wk dir ps n :
+  NoDup (keys_of ps) -> (forall k v, In (k, v) ps -> pv_eq v v = true) ->
+  match exec g (UMergeRel (same_rows wk dir ps n)) with
+  | Done g1 c1 =>
+      (c1 <= 1) /\
+      match exec g1 (UMergeRel (same_rows wk dir ps n)) with
+      | Done g2 c2 => c2 = 0 /\ gn g2 = gn g1 /\ gr g2 = gr g1 /\ gnext g2 = gnext g1
+      | Failed => False
+      end
+  | Failed => False
+  end.
+Proof.
+  intros ND R. cbn [exec exec1 done].
+  (* second run from any g1 whose snapshot satisfies the pattern *)
+  assert (Second : forall g1, rsat g1 [] wk dir ps ->
+            snd (fst (fold_left (merge_rel_row g1) (same_rows wk dir ps n) (g1, 0, []))) = 0 /\
+            gn (fst (fst (fold_left (merge_rel_row g1) (same_rows wk dir ps n) (g1, 0, [])))) = gn g1 /\
+            gr (fst (fst (fold_left (merge_rel_row g1) (same_rows wk dir ps n) (g1, 0, [])))) = gr g1 /\
+            gnext (fst (fst (fold_left (merge_rel_row g1) (same_rows wk dir ps n) (g1, 0, [])))) = gnext g1).
+  { intros g1 H. destruct (fold_sat g1 wk dir ps n g1 0 [] H) as (g' & E & A & B & C). rewrite E. cbn. auto. }
+  destruct n as [|n].
+  - cbn. repeat split; lia.
+  - cbn [same_rows repeat fold_left]. fold (same_rows wk dir ps n).
+    assert (Dec : rsat g [] wk dir ps \/ ~ rsat g [] wk dir ps) by (unfold rsat; destruct (filter (kmatch g [] ps) (merge_lookup_keys wk dir)); [right; intros H; apply H; reflexivity|left; discriminate]). destruct Dec as [Hs|Hu].
+    + (* already matched before the statement *)
+      rewrite merge_rel_row_sat by exact Hs.
+      destruct (fold_sat g wk dir ps n (mkGraph (gn g) (gr g) (gnext g) (gcat g)) 0 [] Hs) as (g' & E & A & B & C).
+      rewrite E. cbn [fst snd]. split; [lia|].
+      assert (Hs1 : rsat g' [] wk dir ps).
+      { unfold rsat, kmatch in *. rewrite B. exact Hs. }
+      cbn [same_rows repeat] in Second. specialize (Second g' Hs1).
+      change (repeat (wk, dir, ps, [], []) n) with (same_rows wk dir ps n) in Second.
+      cbn [fold_left] in Second. exact Second.
+    + (* the first row creates, the others find it in the overlay *)
+      rewrite merge_rel_row_unsat by exact Hu.
+      set (Kc := merge_create_key wk dir).
+      assert (Hov : rsat g ([] ++ [(Kc, raw_set [] ps)]) wk dir ps).
+      { unfold rsat. intros Hf.
+        assert (Hk : In Kc (filter (kmatch g ([] ++ [(Kc, raw_set [] ps)]) ps) (merge_lookup_keys wk dir))).
+        { apply filter_In. split; [apply create_key_in_lookup|].
+          unfold kmatch. cbn [app existsb fst snd]. rewrite rkey_eqb_refl, raw_set_matches by assumption.
+          cbn. apply orb_true_r. }
+        rewrite Hf in Hk. destruct Hk. }
+      destruct (fold_sat g wk dir ps n (mkGraph (gn g) (rel_merge_create Kc ps [] (gr g)) (gnext g) (gcat g)) (0 + 1) _ Hov)
+        as (g' & E & A & B & C).
+      rewrite E. cbn [fst snd]. split; [lia|].
+      assert (Hs1 : rsat g' [] wk dir ps).
+      { unfold rsat. intros Hf.
+        assert (Hk : In Kc (filter (kmatch g' [] ps) (merge_lookup_keys wk dir))).
+        { apply filter_In. split; [apply create_key_in_lookup|].
+          unfold kmatch. rewrite B. cbn [gr].
+          destruct (rfind_after_create Kc ps (gr g)) as (m & p & F). rewrite F.
+          rewrite raw_set_matches by assumption. reflexivity. }
+        rewrite Hf in Hk. destruct Hk. }
+      cbn [same_rows repeat] in Second. specialize (Second g' Hs1).
+      change (repeat (wk, dir, ps, [], []) n) with (same_rows wk dir ps n) in Second.
+      cbn [fold_left] in Second. exact Second.
+Qed.
